@@ -2,12 +2,14 @@ package chainsim
 
 import (
 	"bytes"
+	"errors"
 	"fmt"
 	"math/big"
 	"time"
 
 	"github.com/btcsuite/btcd/blockchain"
 	"github.com/btcsuite/btcd/btcutil/v2"
+	"github.com/btcsuite/btcd/database"
 	"github.com/btcsuite/btcd/wire/v2"
 
 	"verif/harness/simkit"
@@ -134,6 +136,13 @@ func (s *Sim) Deliver(b *MBlock) {
 		}
 	}
 	if err != nil && !isRule(err) {
+		var dbe database.Error
+		if s.n.cfg.Prune != 0 && errors.As(err, &dbe) && dbe.ErrorCode == database.ErrBlockNotFound {
+			// a pruned node cannot reorganise through block data it has
+			// deleted: a limit of pruning, not a verdict on this block
+			r.Probe("prune-reorg-needs-pruned-block")
+			r.Abort("pruned node asked to reorganise through pruned blocks")
+		}
 		r.Violate("C01", "no-internal-error", "", "ProcessBlock(%v) returned a non-rule error: %v", b, err)
 	}
 	switch {
@@ -401,14 +410,10 @@ func (s *Sim) CheckUtxoLive() {
 	if m := s.n.CompareUtxo(s.n.Chain, tip); m != "" {
 		s.r.Violate("C03", "utxo-equals-fold", "", "live node at tip %v: %s", tip, m)
 	}
-	pruned := func(b *MBlock) bool {
-		var p bool
-		_, err := s.n.Chain.BlockByHash(&b.Hash)
-		p = err != nil
-		return p
-	}
+	pruned := s.n.prunedFn()
 	for b := tip; b != nil && b.Height > 0; b = b.Parent {
-		if s.n.cfg.Prune != 0 && pruned(b) {
+		if pruned != nil && pruned(b.Hash) {
+			s.r.Probe("main-chain-block-pruned")
 			continue
 		}
 		blk, err := s.n.Chain.BlockByHash(&b.Hash)
@@ -422,10 +427,8 @@ func (s *Sim) CheckUtxoLive() {
 			s.r.Violate("C02", "block-fetch", "", "BlockByHash(%v) returned different bytes", b)
 		}
 	}
-	if s.n.cfg.Prune == 0 {
-		if m := s.n.CompareJournal(s.n.Chain, tip, nil); m != "" {
-			s.r.Violate("C03", "spend-journal-equals-fold", "", "%s", m)
-		}
+	if m := s.n.CompareJournal(s.n.Chain, tip, s.n.prunedFn()); m != "" {
+		s.r.Violate("C03", "spend-journal-equals-fold", "", "%s", m)
 	}
 	s.r.Count("utxo_full_comparisons", 1)
 	s.r.Probe("utxo-live-compare")
